@@ -64,23 +64,27 @@ Definition write_range (m : mem) (o : owner) (addr len : N) : vres (N * N) :=
 (* the current bytes of [a, a+n) *)
 Definition mem_bytes (m : mem) (a n : N) : bytes := map (mem_get m) (seqN a (N.to_nat n)).
 
+(* the new contents of the destination buffer (everything after `memory.write(...)`) *)
+Definition zero_fill_buffer (v : option bytes) (write_buffer : bytes) (src_offset src_len : N)
+           (not_found : vmerr) : vres bytes :=
+  let dst_len := lenN write_buffer in
+  if src_offset <? src_len then
+    if U32 <=? src_offset then inr (VMem MemoryOverflow)        (* u32::try_from(src_offset) *)
+    else
+      let src_read_length := N.min (saturating_sub src_len src_offset) dst_len in
+      let '(b, r) := m_read_zerofill v src_offset (firstn (N.to_nat src_read_length) write_buffer) in
+      match r with
+      | inl _ => inl (b ++ zeros (N.to_nat (dst_len - src_read_length)))   (* empty_offset = src_read_length *)
+      | inr KeyNotFound => inr not_found
+      | inr OutOfBounds => inl (zeros (N.to_nat dst_len))                   (* empty_offset = 0 *)
+      end
+  else inl (zeros (N.to_nat dst_len)).
+
 Definition copy_from_storage_zero_fill (m : mem) (o : owner) (v : option bytes)
            (dst_addr dst_len src_offset src_len : N) (not_found : vmerr) : vres mem :=
   let! _ := write_range m o dst_addr dst_len in
   let write_buffer := mem_bytes m dst_addr dst_len in             (* old contents of the destination *)
-  let! buf :=
-    if src_offset <? src_len then
-      if U32 <=? src_offset then inr (VMem MemoryOverflow)        (* u32::try_from(src_offset) *)
-      else
-        let src_read_length := N.min (saturating_sub src_len src_offset) (lenN write_buffer) in
-        let '(b, r) := m_read_zerofill v src_offset (firstn (N.to_nat src_read_length) write_buffer) in
-        match r with
-        | inl _ => inl (b ++ zeros (N.to_nat (dst_len - src_read_length)))   (* empty_offset = src_read_length *)
-        | inr KeyNotFound => inr not_found
-        | inr OutOfBounds => inl (zeros (N.to_nat dst_len))                   (* empty_offset = 0 *)
-        end
-    else inl (zeros (N.to_nat dst_len))
-  in
+  let! buf := zero_fill_buffer v write_buffer src_offset src_len not_found in
   of_res (write_noownerchecks m dst_addr buf).
 
 (* ---------------------------------------------------------------- (3) instructions *)
@@ -231,3 +235,21 @@ Definition ldc (s : vm) (contracts blobs : storage) (a b c mode : N) : vres vm :
   else if mode =? 1 then ldc_blob s blobs a b c
   else if mode =? 2 then ldc_memory s a b c
   else inr InvalidImmediateValue.
+
+(* ---------------------------------------------------------------- statements about padding *)
+(* The strict reading of "copy exactly the specified bytes and zero padding" for LDC modes 0/1:
+   the bytes between $rC and the word-padded length are zero.  False for the model (and the
+   implementation) when $rC is not a multiple of 8 and the value continues after offset + $rC:
+   see ReadProofs.ldc_strict_padding_refuted. *)
+Definition ldc_contract_padding_is_zero : Prop :=
+  forall (s : vm) (contracts : storage) (id_addr off c : N) (s' : vm),
+    Inv (v_mem s) -> v_internal s = false ->
+    ldc_contract s contracts id_addr off c = inl s' ->
+    forall i, c <= i -> i < padded_len c -> mem_get (v_mem s') (v_ssp s + i) = 0.
+
+Definition ldc_witness_mem : mem :=
+  {| stack := sv_write (sv_resize sv_empty 64) 0 (repeat 7 32); heap := sv_empty; mhp := MEM_SIZE |}.
+Definition ldc_witness_vm : vm :=
+  {| v_mem := ldc_witness_mem; v_ssp := 64; v_sp := 64; v_hp := MEM_SIZE; v_fp := 0;
+     v_internal := false; v_max_size := 1024 |}.
+Definition ldc_witness_contracts : storage := [(repeat 7 32, [1; 2; 3; 4; 5; 6; 7; 8; 9; 10; 11; 12; 13; 14; 15; 16])].
